@@ -37,3 +37,5 @@ CFG = dict(
             "by the client, and malformed client messages are not modelled (the loopback run observes the first, nothing claims the others)",
     timeout=900,
 )
+
+CFG["rule"] += " Also: application metadata under grpc-* names the protocol does not reserve (grpc-tenant, grpc-retry-pushback-ms, grpc-previous-rpc-attempts) in request, header and trailer position; front 'grpcl' = a second mux over the same backend with MaxReceiveMessageSize 96 (send limit default), replies of 90 / 97 / 200 / 5000 bytes on all four shapes."
